@@ -45,9 +45,8 @@ class State:
     """slice_dict / shape_dict over `names`; `known(name, axis, cell) -> bool` chooses the pattern.
     Known cells hold fresh unconstrained symbolic integers."""
 
-    def __init__(self, names, known, inp=None, tag="c"):
-        from vc.obl import sym_int
-
+    def __init__(self, names, known, V):
+        self.V = V
         self.names = list(names)
         self.shape = {}
         self.slices = {}
@@ -57,10 +56,7 @@ class State:
             for ax in range(3):
                 for cell in CELLS:
                     if known(n, ax, cell):
-                        v = sym_int(f"{tag}_{n}_{ax}_{cell}")
-                        if inp is not None:
-                            inp.scalar(f"{n}.{cell}[{ax}]", v)
-                        self.set(n, ax, cell, v)
+                        self.set(n, ax, cell, V.int(f"{n}.{cell}[{ax}]"))
 
     def get(self, n, ax, cell):
         if cell == "s":
@@ -77,11 +73,9 @@ class State:
         return {(n, ax, cell): self.get(n, ax, cell) for n in self.names for ax in range(3) for cell in CELLS}
 
     def assume_consistent(self, n, ax):
-        from vc.core import ctx
-
         s, b0, b1 = (self.get(n, ax, c) for c in CELLS)
         if s is not None and b0 is not None and b1 is not None:
-            ctx().assume(veq(s, b1 - b0))
+            self.V.assume(veq(s, b1 - b0))
 
 
 def _objects(names):
@@ -138,13 +132,106 @@ def run_rule(fn, **kw):
 NAMES = (VOL, "X", "Y")
 
 
-def _sym_shape(inp):
-    from vc.obl import sym_int
+class SymValues:
+    """symbolic inputs, registered under their names for witness extraction"""
 
-    N = tuple(sym_int(f"N{a}", lo=1) for a in range(3))
-    for a in range(3):
-        inp.scalar(f"N{a}", N[a])
-    return N
+    def __init__(self, inp):
+        self.inp = inp
+
+    def int(self, name, lo=None):
+        from vc.obl import sym_int
+
+        return self.inp.scalar(name, sym_int(name, lo=lo))
+
+    def real(self, name):
+        from vc.obl import sym_real
+
+        return self.inp.scalar(name, sym_real(name))
+
+    def shape(self):
+        return tuple(self.int(f"N{a}", lo=1) for a in range(3))
+
+    def config(self, N):
+        return P.make_config(N)
+
+    def assume(self, cond):
+        from vc.core import ctx
+
+        ctx().assume(cond)
+
+    def note(self, name, v):
+        self.inp.note(name, v)
+
+
+class PreconditionFailed(Exception):
+    pass
+
+
+class ReplayValues:
+    """witness values; the REAL RectilinearGrid instead of the stand-in"""
+
+    def __init__(self, witness):
+        self.scalars = (witness or {}).get("scalars", {})
+
+    def int(self, name, lo=None):
+        return int(self.scalars[name])
+
+    def real(self, name):
+        return float(self.scalars[name])
+
+    def shape(self):
+        return tuple(self.int(f"N{a}") for a in range(3))
+
+    def config(self, N):
+        return P.real_config(N)
+
+    def assume(self, cond):
+        if not bool(cond):
+            raise PreconditionFailed("witness violates a precondition")
+
+    def note(self, name, v):
+        pass
+
+
+def provider(inp):
+    return inp if isinstance(inp, ReplayValues) else SymValues(inp)
+
+
+class ReplayCtx:
+    """stands in for the session context when a contract body is re-run on concrete values"""
+
+    def __init__(self):
+        self.results = []
+
+    def prove(self, name, goal, *a, **k):
+        self.results.append((name, bool(goal)))
+        return bool(goal)
+
+    def cover(self, name):
+        pass
+
+    def bounded(self, *a, **k):
+        pass
+
+
+def replay_rule(key, obligation, witness, tier="thorough"):
+    """re-run the contract body of a rule task on the witness values against the real code with the
+    real RectilinearGrid"""
+    bodies = rule_tasks(tier)
+    if key not in bodies:
+        bodies = rule_tasks("quick")
+    if key not in bodies:
+        return False, f"unknown rule task {key}"
+    rc = ReplayCtx()
+    try:
+        bodies[key](rc, ReplayValues(witness))
+    except PreconditionFailed as e:
+        return False, str(e)
+    except KeyError as e:
+        return False, f"witness incomplete: {e}"
+    failed = [n for n, ok in rc.results if not ok]
+    hit = [n for n in failed if n == obligation or obligation.startswith(n) or n.startswith(obligation)]
+    return bool(hit), f"rule contract {key} on witness {witness.get('scalars')}: failed clauses on the real code: {failed}"
 
 
 def _known_from(pattern):
@@ -156,14 +243,14 @@ def grid_rule(axis, side, target_known):
     def body(c, inp):
         import fdtdx.fdtd.initialization as INI
         from fdtdx.objects.object import GridCoordinateConstraint
-        from vc.obl import sym_int
 
-        N = _sym_shape(inp)
-        cfg = P.make_config(N)
+        V = provider(inp)
+        N = V.shape()
+        cfg = V.config(N)
         d = 0 if side == "-" else 1
         tcell = ("X", axis, "b0" if d == 0 else "b1")
-        st = State(NAMES, _known_from({tcell: target_known, ("Y", axis, "b0"): True, ("X", (axis + 1) % 3, "b1"): True}), inp)
-        k = inp.scalar("coord", sym_int("coord"))
+        st = State(NAMES, _known_from({tcell: target_known, ("Y", axis, "b0"): True, ("X", (axis + 1) % 3, "b1"): True}), V)
+        k = V.int("coord")
         con = GridCoordinateConstraint(object="X", axes=(axis,), sides=(side,), coordinates=(k,))
         pre = st.snapshot()
         exc, ret = run_rule(INI._apply_grid_coordinate_constraint, constraint=con, object_map=_objects(NAMES), slice_dict=st.slices, config=cfg)
@@ -184,14 +271,14 @@ def real_rule(axis, side, target_known):
     def body(c, inp):
         import fdtdx.fdtd.initialization as INI
         from fdtdx.objects.object import RealCoordinateConstraint
-        from vc.obl import sym_real
 
-        N = _sym_shape(inp)
-        cfg = P.make_config(N)
+        V = provider(inp)
+        N = V.shape()
+        cfg = V.config(N)
         d = 0 if side == "-" else 1
         tcell = ("X", axis, "b0" if d == 0 else "b1")
-        st = State(NAMES, _known_from({tcell: target_known, ("Y", axis, "b1"): True}), inp)
-        x = inp.scalar("coord", sym_real("coord"))
+        st = State(NAMES, _known_from({tcell: target_known, ("Y", axis, "b1"): True}), V)
+        x = V.real("coord")
         con = RealCoordinateConstraint(object="X", axes=(axis,), sides=(side,), coordinates=(x,))
         pre = st.snapshot()
         exc, ret = run_rule(INI._apply_real_coordinate_constraint, constraint=con, object_map=_objects(NAMES), slice_dict=st.slices, config=cfg)
@@ -214,16 +301,16 @@ def position_rule(axis, p_own, p_other, pattern_bits, with_grid_margin):
     def body(c, inp):
         import fdtdx.fdtd.initialization as INI
         from fdtdx.objects.object import PositionConstraint
-        from vc.obl import sym_int, sym_real
 
-        N = _sym_shape(inp)
-        cfg = P.make_config(N)
+        V = provider(inp)
+        N = V.shape()
+        cfg = V.config(N)
         ob0, ob1, ks, kb0, kb1 = pattern_bits
         pat = {("Y", axis, "b0"): ob0, ("Y", axis, "b1"): ob1, ("X", axis, "s"): ks, ("X", axis, "b0"): kb0, ("X", axis, "b1"): kb1, ("Y", axis, "s"): True, ("X", (axis + 1) % 3, "b0"): True}
-        st = State(NAMES, _known_from(pat), inp)
+        st = State(NAMES, _known_from(pat), V)
         st.assume_consistent("X", axis)
-        m = inp.scalar("margin", sym_real("margin"))
-        g = inp.scalar("grid_margin", sym_int("grid_margin")) if with_grid_margin else 0
+        m = V.real("margin")
+        g = V.int("grid_margin") if with_grid_margin else 0
         con = PositionConstraint(object="X", other_object="Y", axes=(axis,), object_positions=(p_own,), other_object_positions=(p_other,), margins=(m,), grid_margins=(g,))
         pre = st.snapshot()
         exc, ret = run_rule(INI._apply_position_constraint, constraint=con, object_map=_objects(NAMES), config=cfg, shape_dict=st.shape, slice_dict=st.slices)
@@ -258,15 +345,15 @@ def size_rule(axis, other_axis, prop, pattern_bits, with_grid_offset):
     def body(c, inp):
         import fdtdx.fdtd.initialization as INI
         from fdtdx.objects.object import SizeConstraint
-        from vc.obl import sym_int, sym_real
 
-        N = _sym_shape(inp)
-        cfg = P.make_config(N)
+        V = provider(inp)
+        N = V.shape()
+        cfg = V.config(N)
         os_, ob0, ob1, ks = pattern_bits
         pat = {("Y", other_axis, "s"): os_, ("Y", other_axis, "b0"): ob0, ("Y", other_axis, "b1"): ob1, ("X", axis, "s"): ks, ("X", axis, "b0"): True}
-        st = State(NAMES, _known_from(pat), inp)
-        off = inp.scalar("offset", sym_real("offset"))
-        g = inp.scalar("grid_offset", sym_int("grid_offset")) if with_grid_offset else 0
+        st = State(NAMES, _known_from(pat), V)
+        off = V.real("offset")
+        g = V.int("grid_offset") if with_grid_offset else 0
         pr = Fraction(prop)
         con = SizeConstraint(object="X", other_object="Y", axes=(axis,), other_axes=(other_axis,), proportions=(pr,), offsets=(off,), grid_offsets=(g,))
         pre = st.snapshot()
@@ -301,10 +388,10 @@ def extension_rule(axis, direction, other, other_position, pattern_bits, with_gr
     def body(c, inp):
         import fdtdx.fdtd.initialization as INI
         from fdtdx.objects.object import SizeExtensionConstraint
-        from vc.obl import sym_int, sym_real
 
-        N = _sym_shape(inp)
-        cfg = P.make_config(N)
+        V = provider(inp)
+        N = V.shape()
+        cfg = V.config(N)
         d = 0 if direction == "-" else 1
         tcell = ("X", axis, "b0" if d == 0 else "b1")
         if other is not None:
@@ -313,9 +400,9 @@ def extension_rule(axis, direction, other, other_position, pattern_bits, with_gr
         else:
             kv, kt = pattern_bits
             pat = {(VOL, axis, "b0" if d == 0 else "b1"): kv, tcell: kt, ("Y", axis, "b0"): True}
-        st = State(NAMES, _known_from(pat), inp)
-        off = inp.scalar("offset", sym_real("offset")) if other is not None else 0
-        g = (inp.scalar("grid_offset", sym_int("grid_offset")) if with_grid_offset else 0) if other is not None else 0
+        st = State(NAMES, _known_from(pat), V)
+        off = V.real("offset") if other is not None else 0
+        g = (V.int("grid_offset") if with_grid_offset else 0) if other is not None else 0
         con = SizeExtensionConstraint(object="X", other_object=other, axis=axis, direction=direction, other_position=other_position, offset=off, grid_offset=g)
         pre = st.snapshot()
         exc, ret = run_rule(INI._apply_size_extension_constraint, constraint=con, object_map=_objects(NAMES), config=cfg, slice_dict=st.slices, volume_name=VOL)
@@ -350,9 +437,10 @@ def slices_from_shapes_rule(axis, pattern_bits):
     def body(c, inp):
         import fdtdx.fdtd.initialization as INI
 
+        V = provider(inp)
         ks, kb0, kb1 = pattern_bits
         pat = {("X", axis, "s"): ks, ("X", axis, "b0"): kb0, ("X", axis, "b1"): kb1, ("Y", axis, "s"): True, ("Y", (axis + 1) % 3, "b0"): True, (VOL, axis, "b1"): True}
-        st = State(NAMES, _known_from(pat), inp)
+        st = State(NAMES, _known_from(pat), V)
         errors = {n: None for n in NAMES}
         pre = st.snapshot()
         exc, ret = run_rule(INI._update_grid_slices_from_shapes, object_map=_objects(NAMES), shape_dict=st.shape, slice_dict=st.slices, errors=errors)
@@ -383,9 +471,10 @@ def shapes_from_slices_rule(axis, pattern_bits):
     def body(c, inp):
         import fdtdx.fdtd.initialization as INI
 
+        V = provider(inp)
         ks, kb0, kb1 = pattern_bits
         pat = {("X", axis, "s"): ks, ("X", axis, "b0"): kb0, ("X", axis, "b1"): kb1, ("Y", axis, "b0"): True, (VOL, axis, "s"): True}
-        st = State(NAMES, _known_from(pat), inp)
+        st = State(NAMES, _known_from(pat), V)
         errors = {n: None for n in NAMES}
         pre = st.snapshot()
         exc, ret = run_rule(INI._update_grid_shapes_from_slices, object_map=_objects(NAMES), shape_dict=st.shape, slice_dict=st.slices, errors=errors)
@@ -418,6 +507,7 @@ def extend_rule(axis, pattern_bits, context):
         import fdtdx.fdtd.initialization as INI
         from fdtdx.objects.object import PositionConstraint, SizeConstraint, SizeExtensionConstraint
 
+        V = provider(inp)
         ks, kb0, kb1 = pattern_bits
         pat = {}
         for n in NAMES:
@@ -430,7 +520,7 @@ def extend_rule(axis, pattern_bits, context):
         y_known = context != "pos_pending"
         for cell in CELLS:
             pat[("Y", axis, cell)] = y_known
-        st = State(NAMES, _known_from(pat), inp)
+        st = State(NAMES, _known_from(pat), V)
         cons = []
         if context == "ext+":
             cons = [SizeExtensionConstraint(object="X", other_object="Y", axis=axis, direction="+", other_position=-1, offset=0, grid_offset=0)]
@@ -890,3 +980,71 @@ def planted_system(rnd, max_objects=3):
     rnd.shuffle(cons)
     objects = [(VOL, N)] + [(o, decl[o]) for o in names]
     return {"objects": objects, "constraints": cons, "truth": {k: tuple(v) for k, v in truth.items()}}
+
+
+def sample_orders(k, cap, rnd):
+    """up to `cap` distinct orders of range(k): all of them when k! <= cap, else identity, reverse and
+    random shuffles (never enumerates k!)"""
+    import math
+
+    if math.factorial(k) <= cap:
+        return [tuple(p) for p in itertools.permutations(range(k))]
+    out = [tuple(range(k)), tuple(reversed(range(k)))]
+    seen = set(out)
+    while len(out) < cap:
+        p = list(range(k))
+        rnd.shuffle(p)
+        p = tuple(p)
+        if p not in seen:
+            seen.add(p)
+            out.append(p)
+    return out
+
+
+# ---------------------------------------------------------------------------------------
+# state-pattern sweep: the "arbitrary intermediate state" lemma in reachable form
+# ---------------------------------------------------------------------------------------
+#
+# Any partial state of two objects (which of size / lower / upper is known, with arbitrary values)
+# is produced from the real initial state by declared sizes and leading GridCoordinateConstraints
+# with symbolic coordinates.  One MAIN constraint between the two objects is added, listed first
+# or last.  All 64 known/unknown patterns are enumerated; the numbers are symbolic.
+
+SWEEP_MAIN = {
+    "pos": ("pos", "X", "Y", A3, (0, 0, 0), (1, 1, 1), (R("m"),) * 3, (0, 0, 0)),
+    "size": ("size", "X", "Y", A3, A3, (1, 1, 1), (R("off"),) * 3, (0, 0, 0)),
+    "ext": ("ext", "X", "Y", 0, "+", -1, R("off"), 0),
+}
+
+
+def sweep_system(kind, bits):
+    """bits: (X.s, X.b0, X.b1, Y.s, Y.b0, Y.b1) preset flags"""
+    xs, xb0, xb1, ys, yb0, yb1 = bits
+    one_axis = kind == "ext"
+    axes = (0,) if one_axis else A3
+
+    def shp(flag, name):
+        if not flag:
+            return (None, None, None)
+        return (I(name, 1), None, None) if one_axis else _cube(I(name, 1))
+
+    cons = []
+    for flag, obj, side, sym in ((xb0, "X", "-", "xa"), (xb1, "X", "+", "xb"), (yb0, "Y", "-", "ya"), (yb1, "Y", "+", "yb")):
+        if flag:
+            cons.append(("grid", obj, axes, (side,) * len(axes), (I(sym),) * len(axes)))
+    return {"objects": [(VOL, _cube(I("N", 1))), ("X", shp(xs, "sx")), ("Y", shp(ys, "sy"))], "constraints": cons, "main": SWEEP_MAIN[kind]}
+
+
+def sweep_tasks(tier):
+    """-> list of (key, system, order_first, order_last)"""
+    out = []
+    for kind in SWEEP_MAIN:
+        for bits in itertools.product((False, True), repeat=6):
+            base = sweep_system(kind, bits)
+            n = len(base["constraints"])
+            system = {"objects": base["objects"], "constraints": base["constraints"] + [base["main"]]}
+            first = (n,) + tuple(range(n))
+            last = tuple(range(n)) + (n,)
+            lab = "".join("k" if b else "n" for b in bits)
+            out.append((f"{kind}/{lab}", system, first, last))
+    return out
